@@ -34,6 +34,7 @@ def cases(ctx):
     else:
         yield 'exh', {'nmax': 3, 'kmax': 2, 'mod': ctx.nshards, 'rem': ctx.shard}
     n = 2500 if q else 40000
+    ctx.new_phase()
     for i in range(n):
         if not ctx.time_left():
             break
